@@ -180,7 +180,12 @@ pub fn run_check(id: &str, tier: Tier) -> i32 {
             assumptions.push("connection-level bookkeeping is read through the guarded statistics probe (read-only); stream-level conservation is decided on the wire (never over-credited) and behaviourally (cooperative transfers complete, C06)".into());
         }
         "C05" | "C17" | "C19" => {
-            parts.push(run_engine(&PairEngine { focus: Focus::Resets }, &ctx, scale(tier, 16_000, 300_000)));
+            if id == "C17" {
+                // (a peer reset that the receive API reports as a clean end of the message has not surfaced)
+                parts.push(run_engine(&runner::Reattributed { inner: PairEngine { focus: Focus::Resets }, from: "C01", to: "C17", label: "peer-reset-reads-as-clean-end", only: "clean-end|end-of-stream-at-head" }, &ctx, scale(tier, 16_000, 300_000)));
+            } else {
+                parts.push(run_engine(&PairEngine { focus: Focus::Resets }, &ctx, scale(tier, 16_000, 300_000)));
+            }
             if parts.iter().all(|p| p.failure.is_none()) {
                 parts.push(run_engine(&PairEngine { focus: Focus::Coop }, &ctx, scale(tier, 8_000, 200_000)));
             }
